@@ -106,6 +106,22 @@ def grammar() -> Grammar:
         A("group_expr", 1, "SELECT a + b AS s, COUNT(*) AS n FROM x GROUP BY a + b"),
         A("distinct_on", 1, "SELECT DISTINCT ON (b) a, b FROM x ORDER BY b, a"),
     ]
+    # column-list aliases over set-operation bodies: every wrapper x every body shape (left-deep chains of 2..4 branches,
+    # right-nested, mixed operators); the alias list must name the outputs whatever the shape of the body
+    b1, b2, b3, b4 = "SELECT a, b FROM x", "SELECT b, c FROM y", "SELECT c, d FROM z", "SELECT b, a FROM x"
+    bodies = {
+        "select": b1, "u2": f"{b1} UNION ALL {b2}", "u3": f"{b1} UNION ALL {b2} UNION ALL {b3}", "u4": f"{b1} UNION ALL {b2} UNION ALL {b3} UNION ALL {b4}",
+        "u3_right": f"{b1} UNION ALL ({b2} UNION ALL {b3})", "u3_mixed": f"{b1} UNION {b2} EXCEPT {b3}", "u3_intersect": f"{b1} INTERSECT {b2} UNION ALL {b3}",
+        "u3_left_paren": f"({b1} UNION ALL {b2}) UNION ALL {b3}",
+    }
+    wrappers = {
+        "cte_cols_star": "WITH t(p, q) AS ({body}) SELECT * FROM t", "cte_cols_named": "WITH t(p, q) AS ({body}) SELECT p, q FROM t",
+        "derived_cols_star": "SELECT * FROM ({body}) AS s(p, q)", "derived_cols_named": "SELECT q, p FROM ({body}) AS s(p, q)",
+        "cte_star": "WITH t AS ({body}) SELECT * FROM t", "derived_star": "SELECT * FROM ({body}) AS s", "derived_named": "SELECT s.b, s.a FROM ({body}) AS s",
+    }
+    for wn, w in wrappers.items():
+        for bn, b in bodies.items():
+            q.append(A(f"setbody.{wn}.{bn}", 1, w.format(body=b)))
     return Grammar({"q": q, "col": col})
 
 
@@ -263,6 +279,15 @@ def worker(shard, nshards, plan):
                 got = [n.lower() for n in q1.named_selects]
                 if got != ["xx", "b"]:
                     record("star_order|c.star", dialect, sql, f"star expanded to {q1.named_selects}, schema order gives ['Xx', 'b']")
+            elif tags and tags[0].startswith("setbody.") and "_star" in tags[0].split(".")[1]:
+                # the star over a set-operation body: the alias column list if there is one, else the first branch's names
+                want = ["p", "q"] if "_cols_" in tags[0] else ["a", "b"]
+                try:
+                    got = [n.lower() for n in q1.named_selects]
+                except Exception:
+                    got = None
+                if got is not None and got != want:
+                    record(f"star_order|{tags[0]}", dialect, sql, f"star expanded to {got}, the source exposes {want}")
             elif tags and tags[0] in ("star", "star_derived", "star_join", "star_using", "tstar", "star_exclude", "star_replace", "union_derived_star"):
                 want = {"star": ["a", "b"], "star_derived": ["b", "a"], "star_join": ["a", "b", "b", "c"], "star_using": ["b", "a", "c"],
                         "tstar": ["a", "b", "c"], "star_exclude": ["b"], "star_replace": ["a", "b"], "union_derived_star": ["a"]}[tags[0]]
